@@ -284,6 +284,55 @@ pub fn guarded<F: FnOnce() -> CheckResult>(f: F) -> CheckResult {
 }
 
 // ---------------------------------------------------------------------------------------------
+// activity watchdog for the phases that do not have typed per-case slots (replays, enumerations)
+
+struct Activity {
+    id: u64,
+    since: Instant,
+    label: String,
+}
+
+static ACTIVITIES: std::sync::Mutex<Vec<Activity>> = std::sync::Mutex::new(Vec::new());
+static NEXT_ACTIVITY: std::sync::atomic::AtomicU64 = std::sync::atomic::AtomicU64::new(1);
+static MONITOR: std::sync::Once = std::sync::Once::new();
+
+pub fn case_timeout_s() -> u64 {
+    std::env::var("VERIF_CASE_TIMEOUT").ok().and_then(|v| v.parse().ok()).unwrap_or(180)
+}
+
+pub struct ActivityGuard(u64);
+
+impl Drop for ActivityGuard {
+    fn drop(&mut self) {
+        if let Ok(mut a) = ACTIVITIES.lock() {
+            a.retain(|x| x.id != self.0);
+        }
+    }
+}
+
+/// Registers a unit of work (one replay file, one block of an enumeration). If it is still registered after
+/// VERIF_CASE_TIMEOUT seconds the process reports INCONCLUSIVE and exits with code 2.
+pub fn activity(label: String) -> ActivityGuard {
+    MONITOR.call_once(|| {
+        std::thread::spawn(|| loop {
+            std::thread::sleep(std::time::Duration::from_millis(500));
+            let limit = case_timeout_s();
+            if let Ok(a) = ACTIVITIES.lock() {
+                if let Some(x) = a.iter().find(|x| x.since.elapsed().as_secs() >= limit) {
+                    println!("INCONCLUSIVE: {} did not finish within {} s - possible livelock in the code under test", x.label, limit);
+                    std::process::exit(2);
+                }
+            }
+        });
+    });
+    let id = NEXT_ACTIVITY.fetch_add(1, std::sync::atomic::Ordering::SeqCst);
+    if let Ok(mut a) = ACTIVITIES.lock() {
+        a.push(Activity { id, since: Instant::now(), label });
+    }
+    ActivityGuard(id)
+}
+
+// ---------------------------------------------------------------------------------------------
 // known findings
 
 #[derive(Clone, Debug)]
@@ -337,6 +386,29 @@ pub struct Run {
     exhaustive: Option<bool>,
     pub replayed: u64,
     pub extra: BTreeMap<String, Value>,
+    /// C06 only (its statement forbids hangs): a generated case on which one thread burns more than
+    /// `HANG_CPU_BUDGET_S` seconds of CPU time (thread CPU time from /proc, not wall clock; normal cases need
+    /// microseconds) is reported as a violation (livelock) instead of "inconclusive"
+    pub hang_is_violation: bool,
+}
+
+pub const HANG_CPU_BUDGET_S: u64 = 20;
+
+/// CPU time (user + system, in clock ticks) consumed so far by the thread with this kernel tid
+fn thread_cpu_ticks(tid: u64) -> Option<u64> {
+    let stat = std::fs::read_to_string(format!("/proc/self/task/{}/stat", tid)).ok()?;
+    // fields after the command name (which is in parentheses and may contain spaces)
+    let rest = &stat[stat.rfind(')')? + 2..];
+    let f: Vec<&str> = rest.split(' ').collect();
+    // rest starts at field 3 (state); utime = field 14, stime = field 15
+    let utime: u64 = f.get(11)?.parse().ok()?;
+    let stime: u64 = f.get(12)?.parse().ok()?;
+    Some(utime + stime)
+}
+
+fn own_tid() -> Option<u64> {
+    let l = std::fs::read_link("/proc/thread-self").ok()?;
+    l.file_name()?.to_str()?.parse().ok()
 }
 
 pub fn seed_from_env() -> u64 {
@@ -362,6 +434,7 @@ impl Run {
             exhaustive: None,
             replayed: 0,
             extra: BTreeMap::new(),
+            hang_is_violation: false,
         }
     }
 
@@ -448,7 +521,9 @@ impl Run {
         self.replayed += 1;
         let mut ctx = Ctx::new(false);
         ctx.counting = false;
+        let _watch = activity(format!("replay file {} of {} ({})", file.display(), self.id, sub));
         let r = guarded(|| p.check(&case, &mut ctx));
+        drop(_watch);
         match r {
             Ok(()) => {
                 if verbose {
@@ -486,14 +561,107 @@ impl Run {
         let id = self.id.clone();
         let known: Vec<String> = self.known.iter().map(|k| k.sig.clone()).collect();
         let t0 = Instant::now();
+        // per-case watchdog: a case that runs for minutes (normal: microseconds) is a hang of the code under test or of
+        // the harness. It cannot be interrupted, so the case is written out and the process ends with exit code 2
+        // (inconclusive - a wall clock is never used as a violation signal).
+        let limit_s: u64 = case_timeout_s();
+        let current: Vec<std::sync::Arc<std::sync::Mutex<Option<(Instant, P::Case)>>>> = (0..w).map(|_| Default::default()).collect();
+        let seqs: Vec<std::sync::Arc<std::sync::atomic::AtomicU64>> = (0..w).map(|_| Default::default()).collect();
+        let tids: Vec<std::sync::Arc<std::sync::atomic::AtomicU64>> = (0..w).map(|_| Default::default()).collect();
+        let hang_is_violation = self.hang_is_violation;
+        let done = std::sync::atomic::AtomicUsize::new(0);
+        let vdir = verif_dir();
         let results: Vec<(Ctx, Option<(P::Case, Failure)>)> = std::thread::scope(|s| {
+            {
+                let current = &current;
+                let done = &done;
+                let id = &id;
+                let vdir = &vdir;
+                let seqs = &seqs;
+                let tids = &tids;
+                s.spawn(move || {
+                  // (case sequence number, thread cpu ticks when that case was first seen) per worker
+                  let mut tracked: Vec<Option<(u64, u64)>> = vec![None; w];
+                  let ticks_per_s = 100u64; // USER_HZ on Linux
+                  loop {
+                    if done.load(std::sync::atomic::Ordering::SeqCst) >= w {
+                        return;
+                    }
+                    std::thread::sleep(std::time::Duration::from_millis(500));
+                    if hang_is_violation {
+                        for wi in 0..w {
+                            let seq = seqs[wi].load(std::sync::atomic::Ordering::SeqCst);
+                            let tid = tids[wi].load(std::sync::atomic::Ordering::SeqCst);
+                            if seq == 0 || tid == 0 {
+                                continue;
+                            }
+                            let cpu = match thread_cpu_ticks(tid) {
+                                Some(c) => c,
+                                None => continue,
+                            };
+                            match tracked[wi] {
+                                Some((s0, c0)) if s0 == seq => {
+                                    if cpu.saturating_sub(c0) >= HANG_CPU_BUDGET_S * ticks_per_s {
+                                        let case = current[wi].lock().ok().and_then(|g| g.as_ref().map(|x| x.1.clone()));
+                                        if let Some(case) = case {
+                                            // still the same case?
+                                            if seqs[wi].load(std::sync::atomic::Ordering::SeqCst) != seq {
+                                                continue;
+                                            }
+                                            let dir = vdir.join("failures");
+                                            let _ = std::fs::create_dir_all(&dir);
+                                            let msg = format!("one generated case kept a thread busy for more than {} s of CPU time (normal cases need microseconds): the reader loops forever", HANG_CPU_BUDGET_S);
+                                            let v = json!({"property": id, "sub": sub, "signature": "livelock/cpu-time-budget", "message": msg, "case": serde_json::to_value(&case).unwrap_or(Value::Null)});
+                                            let text = serde_json::to_string_pretty(&v).unwrap_or_default();
+                                            let path = dir.join(format!("{}-{}-livelock-{:016x}.json", id, sub, h64(&text)));
+                                            let _ = std::fs::write(&path, text);
+                                            println!("VIOLATION property={} replay={}", id, path.display());
+                                            println!("  sub-check: {}  signature: livelock/cpu-time-budget", sub);
+                                            println!("  {}", msg);
+                                            std::process::exit(1);
+                                        }
+                                    }
+                                }
+                                _ => tracked[wi] = Some((seq, cpu)),
+                            }
+                        }
+                    }
+                    for slot in current.iter() {
+                        let stuck = match slot.lock() {
+                            Ok(g) => match &*g {
+                                Some((t0, case)) if t0.elapsed().as_secs() >= limit_s => Some(case.clone()),
+                                _ => None,
+                            },
+                            Err(_) => None,
+                        };
+                        if let Some(case) = stuck {
+                            let dir = vdir.join("failures");
+                            let _ = std::fs::create_dir_all(&dir);
+                            let v = json!({"property": id, "sub": sub, "signature": "hang-watchdog", "message": format!("the case did not finish within {} s", limit_s), "case": serde_json::to_value(&case).unwrap_or(Value::Null)});
+                            let text = serde_json::to_string_pretty(&v).unwrap_or_default();
+                            let path = dir.join(format!("{}-{}-hang-{:016x}.json", id, sub, h64(&text)));
+                            let _ = std::fs::write(&path, text);
+                            println!("INCONCLUSIVE: a generated case of {} ({}) did not finish within {} s - possible livelock in the code under test; case written to {}", id, sub, limit_s, path.display());
+                            std::process::exit(2);
+                        }
+                    }
+                  }
+                });
+            }
             let handles: Vec<_> = (0..w)
                 .map(|wi| {
                     let known = &known;
                     let id = &id;
+                    let slot = current[wi].clone();
+                    let seq = seqs[wi].clone();
+                    let tidslot = tids[wi].clone();
+                    let done = &done;
                     std::thread::Builder::new()
                         .stack_size(64 << 20)
                         .spawn_scoped(s, move || {
+                            if let Some(t) = own_tid() {
+                                tidslot.store(t, std::sync::atomic::Ordering::SeqCst);
+                            }
                             let wseed = h64(&(seed, id.as_str(), sub, wi as u64));
                             let mut seed_bytes = [0u8; 32];
                             for (i, chunk) in seed_bytes.chunks_mut(8).enumerate() {
@@ -516,7 +684,14 @@ impl Run {
                             let res = runner.run(&strat, |case| {
                                 let mut c = ctx.borrow_mut();
                                 c.eval();
+                                if let Ok(mut g) = slot.lock() {
+                                    *g = Some((Instant::now(), case.clone()));
+                                }
+                                seq.fetch_add(1, std::sync::atomic::Ordering::SeqCst);
                                 let r = guarded(|| p.check(&case, &mut c));
+                                if let Ok(mut g) = slot.lock() {
+                                    *g = None;
+                                }
                                 match r {
                                     Ok(()) => Ok(()),
                                     Err(f) => {
@@ -556,6 +731,7 @@ impl Run {
                                     None
                                 }
                             };
+                            done.fetch_add(1, std::sync::atomic::Ordering::SeqCst);
                             (ctx, fail)
                         })
                         .unwrap()
@@ -593,6 +769,7 @@ impl Run {
     {
         let t0 = Instant::now();
         let before = self.ctx.evaluations;
+        // (sequential enumerations are bounded in time by construction; they get a generous multiple of the case limit)
         let r = f(&mut self.ctx);
         let complete = r.is_ok();
         if let Err((case, fl)) = r {
@@ -624,13 +801,22 @@ impl Run {
                             let mut ctx = Ctx::new(wi == 0);
                             let mut i = wi as u64;
                             let mut fail = None;
+                            let mut watch = activity(format!("enumeration {} from index {}", sub, i));
+                            let mut in_block = 0u32;
                             while i < n {
                                 if let Err(e) = f(i, &mut ctx) {
                                     fail = Some(e);
                                     break;
                                 }
                                 i += w as u64;
+                                in_block += 1;
+                                if in_block == 2048 {
+                                    in_block = 0;
+                                    drop(watch);
+                                    watch = activity(format!("enumeration {} from index {}", sub, i));
+                                }
                             }
+                            drop(watch);
                             (ctx, fail)
                         })
                         .unwrap()
